@@ -56,7 +56,7 @@ theorem setter_value_guard (env : Env) (orc : Nat → Val → Raw) (horc : ∀ k
     simp only [hplain, hself, ↓reduceIte, checkParams, ha, hd, hshk, lookup, cfg_fallback] at h1
     simp only [List.getElem?_cons_succ, List.getElem?_cons_zero, Bool.false_eq_true, ↓reduceIte] at h1
     rw [orElse_none] at h1
-    exact checkVal_bad ctx (ctx.anns p hp a ha) (ctx.args v (by simp)) hbad h1.1
+    exact checkVal_bad ctx hp ha (ctx.args v (by simp)) hbad h1.1
   have hca : checkArguments env orc f [slf, v] [] = some .pedTypeCheck := by
     cases h : checkArguments env orc f [slf, v] [] with
     | none => exact absurd h hne
@@ -97,7 +97,7 @@ theorem checkParams_positional_bad {env : Env} {orc} {f : Fn} {args : List Val} 
           have hwv : w = v := by rw [hw] at hv; exact Option.some.inj hv
           have haa : a0 = a := by rw [hqa] at ha; exact Option.some.inj ha
           subst hwv; subst haa
-          exact checkVal_bad ctx (ctx.anns q (hsub q (by simp)) a0 hqa) (ctx.args w (List.mem_of_getElem? hw)) hbad hnone.1
+          exact checkVal_bad ctx (hsub q (by simp)) hqa (ctx.args w (List.mem_of_getElem? hw)) hbad hnone.1
         | succ i' =>
           refine ih (idx + 1) (k - 1) (fun p hp' => hsub p (by simp [hp'])) ?_ ⟨i', by omega, p, v, a, ?_, ?_, ha, hbad⟩ hnone.2
           · intro p' hp'
@@ -144,8 +144,8 @@ theorem one_bad_keyword (env : Env) (orc : Nat → Val → Raw) (horc : ∀ k v,
 /-- **C03 (result).** What the caller receives as the return value (the awaited result of a coroutine) conforms to the
     return annotation: a non-conforming result is replaced by PedanticTypeCheckException. -/
 theorem result_guard (env : Env) (orc : Nat → Val → Raw) (f : Fn) (args : List Val) (kw : List (NameId × Val)) (r : Val)
-    (hw : WfEnv env) (hs : StrAnnGuard env) (hmode : f.mode = .pedantic) (hfl : f.flavour ≠ .generator)
-    (a : Ann) (ha : f.retAnn = some a) (hns : a.noSpecial = true) (hr : r.wf env = true ∧ r.plain = true)
+    (hw : WfEnv env) (hmode : f.mode = .pedantic) (hfl : f.flavour ≠ .generator)
+    (a : Ann) (ha : f.retAnn = some a) (hs : a.strAnnOk env r = true) (hns : a.noSpecial = true) (hr : r.wf env = true ∧ r.plain = true)
     (hret : (runCall env orc f args kw (.ret r)).caller = .ret) : conforms env a r = true := by
   by_cases hinit : (f.firstIsSelf && args.isEmpty) = true
   · unfold runCall at hret; simp [hinit] at hret
@@ -168,7 +168,7 @@ theorem result_guard (env : Env) (orc : Nat → Val → Raw) (f : Fn) (args : Li
           · rename_i c hc; simp only at hret; subst hret
             exact absurd hc (checkVal_ne_ret env orc f args a r)
           · rename_i hnone
-            exact sound_checkType env orc hw hs a r hns hr.1 hr.2 (checkVal_none env orc f args a r hnone)
+            exact sound_checkType env orc hw a r hs hns hr.1 hr.2 (checkVal_none env orc f args a r hnone)
 
 /-- `for_all_methods` (pedantic_class) wraps functions, bound methods and all three accessors of a property: every member
     kind named in the property gets the wrapper this model describes -/
@@ -218,5 +218,25 @@ example : (runCall envW (fun _ _ => .raisedOther) witnessDefault [] [(1, .lit (.
     = .ret := by decide
 example : (runCall envW (fun _ _ => .raisedOther) witnessDefault [] [(1, .lit (.int 1)), (2, .lit (.str [98]))] (.ret (.lit (.str [])))).caller
     = .pedTypeCheck := by decide
+
+/-- the side conditions of `args_guard` are satisfiable on a realistic class table (`envR`: every class carries its own name and
+    `object` in its MRO, names the context does not bind): the string-annotation guard inside `ValOk` is free for a signature
+    without string annotations -/
+example : SoundCtx envR witnessDefault [] [(1, .lit (.int 1))] := by
+  have hno : ∀ p ∈ witnessDefault.params, ∀ a, p.ann = some a → ∀ n, a ≠ .strAnn n := by
+    intro p hp a ha n
+    simp only [witnessDefault, List.mem_cons, List.not_mem_nil, or_false] at hp
+    rcases hp with rfl | rfl <;> (simp at ha; subst ha; simp)
+  refine ⟨envR_wf, ?_, ?_, ?_, ?_⟩
+  · intro p hp a ha
+    simp only [witnessDefault, List.mem_cons, List.not_mem_nil, or_false] at hp
+    rcases hp with rfl | rfl <;> (simp at ha; subst ha; rfl)
+  · intro p hp d hd
+    simp only [witnessDefault, List.mem_cons, List.not_mem_nil, or_false] at hp
+    rcases hp with rfl | rfl
+    · simp at hd
+    · simp at hd; subst hd; exact ValOk.of_no_str hno (by decide)
+  · intro v hv; simp at hv
+  · intro kv hkv; simp at hkv; subst hkv; exact ValOk.of_no_str hno (by decide)
 
 end PedVerif.Call
